@@ -21,6 +21,14 @@ RULE = ("@given programs of 1..12 (quick) / 1..25 (thorough) steps over the reci
 ASSUMPTIONS = ["oracle = the library's own direct operations (differential at another granularity)",
                "explicit names are given to created solutions (default names differ between Recipe and Container API)",
                "only objects some step uses are declared (the unused-declaration rule belongs to C16)"]
+def shard_config(shard, tier):
+    """two of eight shards run under other documented settings: storage units (mmol, mL), and default densities
+    2.5 / 0.4 with display units that differ from the storage units"""
+    return {5: {'moles_storage_unit': 'mmol', 'volume_storage_unit': 'mL'},
+            6: {'default_solid_density': 2.5, 'default_enzyme_density': 0.4, 'moles_display_unit': 'nmol',
+                'volume_display_unit': 'mL'}}.get(shard % 8)
+
+
 REQUIRED_CLASSES = {'quick': ['baked', 'eager-fails', 'raw'], 'thorough': ['baked', 'eager-fails', 'raw', 'stages']}
 
 
